@@ -1461,6 +1461,8 @@ class Engine:
                     st.pc.append(inb)
                 a = self.concretize(st, a, 'address', cap=max(self.conc_cap, o.size + 1))
         o = st.find(a)
+        if o is None and self.mt is not None and a >= 4096:
+            o = self.mt.foreign(st, a)        # heap object of another thread (E2-mt): read as its owner left it
         if o is None:
             self.violation(st, 'memory', '%s of %d byte(s) at 0x%x: %s' % ('write' if write else 'read', n, a, 'null pointer dereference' if a < 4096 else 'address outside every object'))
             raise PathEnd('violation')
@@ -1499,6 +1501,8 @@ class Engine:
             return
         if o.ro:
             self.violation(st, 'memory', 'write to read-only %s' % self.oname(o)); raise PathEnd('violation')
+        if o.base not in st.mem:
+            return                      # object owned by another thread (E2-mt): the write is not tracked
         o = st.wobj(o)
         o.data[off:off + n] = cells
 
@@ -1802,6 +1806,8 @@ def _free(eng, st, p, kind, fname):
     if type(p) is not int:
         p = eng.concretize(st, p, 'freed pointer')
     o = st.mem.get(p)
+    if o is None and eng.mt is not None and eng.mt.foreign(st, p) is not None:
+        return                          # block allocated by another thread (E2-mt): released there, not tracked here
     if o is None:
         eng.violation(st, 'memory', '%s of 0x%x which is not the start of a heap block' % (fname, p)); raise PathEnd('violation')
     if not o.alive:
